@@ -49,6 +49,14 @@ func families(run func(sp *ebnfref.Spec, family string)) {
 			}
 		}
 	}
+	// (i') different sub-expressions that look alike (same symbols, different structure) under the same operator
+	for _, pair := range [][2]string{{`"a" "b"`, `"a" | "b"`}, {`x`, `x |`}, {`x y`, `x | y`}, {`"a" "b" | "c"`, `"a" | "b" "c"`}, {`"a" "b"`, `"b" "a"`}, {`x x`, `x`}, {`"a" | "b"`, `"a" | "b" |`}, {`"a" TK`, `"a" | TK`}} {
+		for b := 0; b < 4; b++ {
+			mk("look_alikes", fmt.Sprintf("grammar g\n%sstart = %s \"c\" %s ;\n", helpers, wrap(b, pair[0]), wrap(b, pair[1])))
+			mk("look_alikes", fmt.Sprintf("grammar g\n%sstart = %s \"c\" %s ;\n", helpers, wrap(b, pair[1]), wrap(b, pair[0])))
+			mk("look_alikes", fmt.Sprintf("grammar g\n%sstart = %s z ;\nz = %s ;\n", helpers, wrap(b, pair[0]), wrap(b, pair[1])))
+		}
+	}
 	// (ii) user rules named like the names emerge synthesises
 	for b := 0; b < 4; b++ {
 		for _, c := range []struct{ operand, stem string }{{`x`, "gen_x_"}, {`"a" "b"`, "gen1_"}, {`"*"`, "gen_star_"}, {`"a"`, "gen1_"}, {`y`, "gen_y_"}} {
